@@ -69,6 +69,17 @@ CHECKS.update({
                 text='Every cause of connection end x every reconnect trigger, the fault and the reconnect request placed at every choice point, up to two consecutive reconnects, on the real client with one real server per transport.',
                 ref='4 C17'),
 })
+CHECKS.update({
+    'C18': dict(tech='exhaustive enumeration (complete products of per-entry alphabets, all composites up to a length) + differential check of both codec backends',
+                text='Every entry value in the stated alphabets, every composite of up to 3 (thorough 4) entries, the complete well-known tables and the over-long rejections are enumerated; round trips are compared in a reference normal form.',
+                ref='4 C18'),
+    'C19': dict(tech='exhaustive enumeration of route tables x requests through the real router/handler coroutines and through two real endpoints, against a reference router',
+                text='The complete product of route tables (programs) and requests (type, route, routing-entry position, authentication) is driven through the real RoutingRequestHandler on the virtual loop and end-to-end over the wire; a dict-lookup reference router decides which handler may run.',
+                ref='4 C19'),
+    'C20': dict(tech='deviation-bounded exhaustive schedule exploration of two real endpoints driven through the Rx3 / ReactiveX4 adapters, against the reference element sequence',
+                text='Stream/channel/request-response/fire-and-forget/metadata-push through both adapter generations over the full product of counts, limits, error positions and sources, with disposal as an explicit event placed at every choice point.',
+                ref='4 C20'),
+})
 NOT_YET = {
 }
 ALL = ['C%02d' % i for i in range(1, 21)]
